@@ -351,6 +351,9 @@ fn classify(dbg: &str) -> &'static str {
         ("kind: OutPoint", "resolve"),
         ("kind: Transaction", "txs-noncontextual"),
     ];
+    if dbg.contains("Uncles") && dbg.contains("ExceededMaximumProposalsLimit") {
+        return "uncle-proposals-limit";
+    }
     for (pat, cls) in TABLE {
         if dbg.contains(pat) {
             return cls;
@@ -396,6 +399,23 @@ impl RefStore {
         let is_head = next_epoch.is_head();
         let epoch = next_epoch.epoch();
         let txn = db.begin_transaction();
+        let fees: Vec<Capacity> = {
+            let mut seen = HashSet::new();
+            let bcp = BlockCellProvider::new(block).expect("block cell provider");
+            let cp = OverlayCellProvider::new(&bcp, &txn);
+            let hc = MainChainHeaders { db };
+            let loader = db.borrow_as_data_loader();
+            let calc = DaoCalculator::new(consensus, &loader);
+            block
+                .transactions()
+                .iter()
+                .skip(1)
+                .map(|tx| {
+                    let rtx = resolve_transaction(tx.clone(), &mut seen, &cp, &hc).expect("resolve in reference store");
+                    calc.transaction_fee(&rtx).expect("fee")
+                })
+                .collect()
+        };
         txn.insert_block(block).unwrap();
         txn.attach_block(block).unwrap();
         ckb_store::attach_block_cell(&txn, block).unwrap();
@@ -408,7 +428,7 @@ impl RefStore {
             total_difficulty: parent_ext.total_difficulty.clone() + block.header().difficulty(),
             total_uncles_count: parent_ext.total_uncles_count + block.data().uncles().len() as u64,
             verified: Some(true),
-            txs_fees: vec![],
+            txs_fees: fees,
             cycles: None,
             txs_sizes: None,
         };
@@ -426,6 +446,11 @@ impl RefStore {
 }
 
 struct Case<'a> {
+    /// blocks the builder attached in place to one of its stores (built with Tweak::None, cellbase only)
+    inplace: HashSet<Byte32>,
+    t_submit: std::time::Duration,
+    t_describe: std::time::Duration,
+    t_process: std::time::Duration,
     refstore: RefStore,
     max_ts: u64,
     out: &'a mut Out,
@@ -500,6 +525,15 @@ impl Case<'_> {
         let lines: Vec<String> = if &self.refstore.tip == parent {
             let db = &self.refstore.db;
             todo.iter().map(|b| describe(&mut self.ids, &self.consensus, Some(db), self.cyc, b)).collect()
+        } else if known && todo.iter().all(|b| b.transactions().len() == 1 && matches!(self.builder.blocks.get(&b.hash()), Some(_)) && self.inplace.contains(&b.hash())) {
+            // cellbase-only blocks the builder attached in place: its store (tip = the block) answers
+            // every parent-context oracle identically (nothing to resolve), without a replay
+            let mut lines = vec![];
+            for b in &todo {
+                let db = self.builder.replay_store(&b.hash());
+                lines.push(describe(&mut self.ids, &self.consensus, Some(db), self.cyc, b));
+            }
+            lines
         } else if known {
             let db = self.builder.replay_store(parent);
             todo.iter().map(|b| describe(&mut self.ids, &self.consensus, Some(db), self.cyc, b)).collect()
@@ -512,10 +546,32 @@ impl Case<'_> {
         }
     }
 
+    /// describe cellbase-only blocks on the builder store that holds `via` (their parents are inside it)
+    fn describe_via(&mut self, via: &Byte32, blocks: &[&BlockView]) {
+        for b in blocks {
+            if self.described.contains(&b.hash()) {
+                continue;
+            }
+            assert_eq!(b.transactions().len(), 1);
+            let db = self.builder.replay_store(via);
+            let l = describe(&mut self.ids, &self.consensus, Some(db), self.cyc, b);
+            self.described.insert(b.hash());
+            self.out.op(&l, "ok");
+        }
+    }
+
     /// HeaderVerifier on the snapshot, parent-known check, then the chain service — `submit_block`
     fn submit(&mut self, blk: &BlockView, now: u64, intent: Intent, rule: &str) {
+        let t0 = std::time::Instant::now();
+        self.submit_inner(blk, now, intent, rule);
+        self.t_submit += t0.elapsed();
+    }
+
+    fn submit_inner(&mut self, blk: &BlockView, now: u64, intent: Intent, rule: &str) {
         let parent = blk.parent_hash();
+        let t0 = std::time::Instant::now();
         self.describe_all(&parent, &[blk]);
+        self.t_describe += t0.elapsed();
         let id = self.ids.block(&blk.hash());
         let before = state_digest(&self.node);
         let tip_before = self.node.tip_hash();
@@ -530,7 +586,10 @@ impl Case<'_> {
                     if snapshot.get_block_header(&parent).is_none() {
                         Err("UnknownParent(rpc)".to_string())
                     } else {
-                        self.node.controller().blocking_process_block(Arc::new(blk.clone())).map_err(|e| format!("{:?}", e))
+                        let t1 = std::time::Instant::now();
+                        let r = self.node.controller().blocking_process_block(Arc::new(blk.clone())).map_err(|e| format!("{:?}", e));
+                        self.t_process += t1.elapsed();
+                        r
                     }
                 }
             }
@@ -552,6 +611,10 @@ impl Case<'_> {
                 format!("err {}", c)
             }
         };
+        // a child of a refused (deleted) block is refused either by HeaderVerifier (parent unknown) or,
+        // when the deleted parent's header is still in the store's header cache, by the chain
+        // service (parent invalid, child marked invalid): the same class, status not compared
+        let st = if v == "err badparent" { "na" } else { st };
         let tip_id = self.ids.block(&tip_after);
         self.out.op(&format!("submit {} now={}", id, now), &format!("{} tip={} st={}", v, tip_id, st));
         self.out.count(&format!("{:?}:{}", intent, v));
@@ -712,6 +775,10 @@ fn run_case(out: &mut Out, seed: u64, base: &Path, cyc: u64, steps: usize) {
     let builder = ChainBuilder::new(consensus.clone(), &dir.join("builder"));
     let cells = genesis_cells(&consensus);
     let mut c = Case {
+        inplace: HashSet::new(),
+        t_submit: Default::default(),
+        t_describe: Default::default(),
+        t_process: Default::default(),
         refstore: RefStore::new(&consensus, &dir.join("refstore")),
         max_ts: consensus.genesis_block().timestamp(),
         out,
@@ -754,6 +821,9 @@ fn run_case(out: &mut Out, seed: u64, base: &Path, cyc: u64, steps: usize) {
     let fp = format!("{:?}|{}", cc, c.rules_hit.len());
     if c.rules_hit.len() >= 6 {
         c.out.nontrivial(fp);
+    }
+    if std::env::var("VERIF_TIMING").is_ok() {
+        eprintln!("  submit {:?} (describe-in-submit {:?}, process {:?})", c.t_submit, c.t_describe, c.t_process);
     }
     let Case { node, builder, refstore, .. } = c;
     node.stop();
@@ -1319,21 +1389,28 @@ fn side_branch(c: &mut Case) {
     while n < tip_n {
         let s = c.next_salt();
         let b = c.builder.build(&prev, &BlockSpec { salt: s, timestamp: Some(ts + 1 + n), ..Default::default() });
+        c.inplace.insert(b.hash());
         c.bad.insert(b.hash());
         c.submit(&b, now + n, Intent::Side, "side:child");
         prev = b.hash();
         n += 1;
     }
     // now the heaviest: twice, from two different children
-    for _ in 0..2 {
-        let s = c.next_salt();
-        let b = c.builder.build(&prev, &BlockSpec { salt: s, timestamp: Some(ts + 2 + n), ..Default::default() });
+    let s = c.next_salt();
+    let b1 = c.builder.build(&prev, &BlockSpec { salt: s, timestamp: Some(ts + 2 + n), ..Default::default() });
+    c.inplace.insert(b1.hash());
+    let b2 = sibling_of(&b1, 1, vec![]);
+    c.builder.blocks.insert(b2.hash(), b2.clone());
+    // b2 is cellbase-only and its parent chain is inside the store that holds b1
+    c.describe_via(&b1.hash(), &[&b1, &b2]);
+    for b in [b1, b2] {
         c.bad.insert(b.hash());
         c.submit(&b, now + n + 2, Intent::Doomed, rule);
         // and a child of the refused block
-        if c.rng.chance(1, 2) {
+        if c.rng.chance(1, 2) && c.inplace.contains(&b.hash()) {
             let s = c.next_salt();
             let ch = c.builder.build(&b.hash(), &BlockSpec { salt: s, timestamp: Some(ts + 3 + n), ..Default::default() });
+            c.inplace.insert(ch.hash());
             c.bad.insert(ch.hash());
             c.submit(&ch, now + n + 3, Intent::Doomed, "side:child-of-refused");
         }
